@@ -47,7 +47,35 @@ type row struct {
 
 func mkRow(i int) row {
 	r := row{id: i, k: i % 7, s: "ab" + strconv.Itoa(i%100), p: likePats[i%3], r: "^ab" + strconv.Itoa(i%40) + "$"}
-	r.line = fmt.Sprintf(`{"id":%d,"k":%d,"s":%q,"p":%q,"r":%q,"v":%s}`, r.id, r.k, r.s, r.p, r.r, strconv.FormatFloat(float64(i)*0.5, 'f', -1, 64))
+	// Columns whose inferred type is a union (every alternative shows up within the first few
+	// rows, well inside the 100 rows of schema inference): the pool workers walk the shared
+	// schema type's alternatives for every such cell.
+	//   u: Float | String            (10 distinct values: usable as a group-by key)
+	//   w: NULL | Float | Boolean | String
+	//   n: NULL | Float | String     (NULL both as explicit null and as a missing key)
+	//   o: {a: Float | String; b: [Float | Boolean | String]; c: NULL | Float | String}
+	u := strconv.Itoa(i % 5)
+	if i%2 == 1 {
+		u = `"s` + strconv.Itoa(i%5) + `"`
+	}
+	w := []string{"true", strconv.FormatFloat(float64(i)*0.25, 'f', -1, 64), `"w` + strconv.Itoa(i%3) + `"`, "null", "false", `"x"`}[i%6]
+	n := []string{`,"n":` + strconv.Itoa(i%3), `,"n":"n` + strconv.Itoa(i%3) + `"`, `,"n":null`}[i%3]
+	if i%3 == 2 && i%6 != 2 {
+		n = "" // missing key
+	}
+	oa := `"a` + strconv.Itoa(i%4) + `"`
+	if i%3 == 0 {
+		oa = strconv.Itoa(i % 4)
+	}
+	oc := `"c"`
+	if i%5 == 0 {
+		oc = "null"
+	} else if i%2 == 1 {
+		oc = strconv.Itoa(i % 7)
+	}
+	o := fmt.Sprintf(`{"a":%s,"b":[%d,"e%d",%v],"c":%s}`, oa, i%2, i%2, i%2 == 0, oc)
+	r.line = fmt.Sprintf(`{"id":%d,"k":%d,"s":%q,"p":%q,"r":%q,"v":%s,"u":%s,"w":%s,"o":%s%s}`, r.id, r.k, r.s, r.p, r.r,
+		strconv.FormatFloat(float64(i)*0.5, 'f', -1, 64), u, w, o, n)
 	return r
 }
 
@@ -125,12 +153,12 @@ func workloads(c *core.Ctx) []workload {
 	all := func(n, k int) int { return n }
 	ws := []workload{
 		{Name: "join2", Kind: "complete", Lines: L, Shared: "pool+join",
-			SQL: func(int) string { return "SELECT a.id, b.v FROM a.json a JOIN b.json b ON a.id = b.id" }, Rows: all},
+			SQL: func(int) string { return "SELECT a.id, b.v, a.u, b.w FROM a.json a JOIN b.json b ON a.id = b.id" }, Rows: all},
 		{Name: "selfjoin", Kind: "complete", Lines: L, Shared: "pool+join",
-			SQL: func(int) string { return "SELECT x.id, y.v FROM a.json x JOIN a.json y ON x.id = y.id" }, Rows: all},
+			SQL: func(int) string { return "SELECT x.id, y.v, x.n, y.o FROM a.json x JOIN a.json y ON x.id = y.id" }, Rows: all},
 		{Name: "join3", Kind: "complete", Lines: L, Shared: "pool+join",
 			SQL: func(int) string {
-				return "SELECT a.id, b.v, c.s FROM a.json a JOIN b.json b ON a.id = b.id JOIN c.json c ON b.id = c.id"
+				return "SELECT a.id, b.v, c.s, a.u, b.o, c.w FROM a.json a JOIN b.json b ON a.id = b.id JOIN c.json c ON b.id = c.id"
 			}, Rows: all},
 		{Name: "like_both_few_patterns", Kind: "complete", Lines: L, Shared: "regexp-cache+pool+join",
 			SQL: func(int) string {
@@ -141,7 +169,7 @@ func workloads(c *core.Ctx) []workload {
 				return "SELECT x.id, y.v FROM (SELECT * FROM a.json WHERE s ~ r AND s ~* r) x JOIN (SELECT * FROM b.json WHERE s ~* r AND s ~ r) y ON x.id = y.id"
 			}, Rows: func(n, k int) int { return countRows(n, predMany) }},
 		{Name: "stdin_join", Kind: "complete", Lines: L, Stdin: true, Shared: "stdin+pool+join",
-			SQL: func(int) string { return "SELECT x.id, y.v FROM stdin.json x JOIN b.json y ON x.id = y.id" }, Rows: all},
+			SQL: func(int) string { return "SELECT x.id, y.v, x.u, x.o, y.n FROM stdin.json x JOIN b.json y ON x.id = y.id" }, Rows: all},
 		{Name: "stdin_join_limit", Kind: "limit", Lines: L, Stdin: true, Shared: "stdin+pool+join",
 			SQL: func(int) string {
 				return "SELECT x.id, y.v FROM stdin.json x JOIN b.json y ON x.id = y.id LIMIT 10"
@@ -151,7 +179,7 @@ func workloads(c *core.Ctx) []workload {
 			Rows: all, ErrSub: "only one simultaneous stdin reader is allowed"},
 		{Name: "limit_top_over_join", Kind: "limit", Lines: L, Shared: "pool+join",
 			SQL: func(int) string {
-				return "SELECT a.id, b.v FROM a.json a JOIN b.json b ON a.id = b.id LIMIT 7"
+				return "SELECT a.id, b.v, a.w, b.u FROM a.json a JOIN b.json b ON a.id = b.id LIMIT 7"
 			}, Rows: func(n, k int) int { return 7 }},
 		{Name: "limit_under_join", Kind: "limit", Lines: L, Shared: "pool+join",
 			SQL: func(int) string {
@@ -166,11 +194,11 @@ func workloads(c *core.Ctx) []workload {
 			Rows: func(n, k int) int { return 100 }},
 		{Name: "error_left_late_row", Kind: "error", Lines: L, Shared: "pool+join",
 			SQL: func(k int) string {
-				return fmt.Sprintf("SELECT x.id, y.v FROM (SELECT * FROM a.json WHERE id != %d.0 OR panic('x') IS NULL) x JOIN b.json y ON x.id = y.id", k)
+				return fmt.Sprintf("SELECT x.id, y.v, x.u, y.w FROM (SELECT * FROM a.json WHERE id != %d.0 OR panic('x') IS NULL) x JOIN b.json y ON x.id = y.id", k)
 			}, ErrSub: "panic: 'x'"},
 		{Name: "error_right_late_row", Kind: "error", Lines: L, Shared: "pool+join",
 			SQL: func(k int) string {
-				return fmt.Sprintf("SELECT x.id, y.v FROM b.json y JOIN (SELECT * FROM a.json WHERE id != %d.0 OR panic('x') IS NULL) x ON x.id = y.id", k)
+				return fmt.Sprintf("SELECT x.id, y.v, x.n, y.o FROM b.json y JOIN (SELECT * FROM a.json WHERE id != %d.0 OR panic('x') IS NULL) x ON x.id = y.id", k)
 			}, ErrSub: "panic: 'x'"},
 		{Name: "malformed_json_left", Kind: "error", Lines: L, BadSide: "left", Shared: "pool+join",
 			SQL:    func(int) string { return "SELECT x.id, y.v FROM bad.json x JOIN b.json y ON x.id = y.id" },
@@ -179,21 +207,21 @@ func workloads(c *core.Ctx) []workload {
 			SQL:    func(int) string { return "SELECT x.id, y.v FROM b.json x JOIN bad.json y ON x.id = y.id" },
 			ErrSub: "couldn't parse line"},
 		{Name: "left_join", Kind: "complete", Lines: S, Shared: "pool+outer-join",
-			SQL:  func(int) string { return "SELECT x.id, y.v FROM a.json x LEFT JOIN b.json y ON x.id = y.id" },
+			SQL:  func(int) string { return "SELECT x.id, y.v, x.u, y.n FROM a.json x LEFT JOIN b.json y ON x.id = y.id" },
 			Rows: func(n, k int) int { return -1 }, MinRows: func(n int) int { return n }},
 		{Name: "outer_join", Kind: "complete", Lines: S, Shared: "pool+outer-join",
 			SQL:  func(int) string { return "SELECT x.id, y.v FROM a.json x OUTER JOIN b.json y ON x.id = y.id" },
 			Rows: func(n, k int) int { return -1 }, MinRows: func(n int) int { return n }},
 		{Name: "groupby_orderby_limit_over_join", Kind: "complete", Lines: L, Shared: "pool+join",
 			SQL: func(int) string {
-				return "SELECT x.k, count(*) AS n FROM a.json x JOIN b.json y ON x.id = y.id GROUP BY x.k ORDER BY n DESC LIMIT 3"
+				return "SELECT x.u, count(*) AS n FROM a.json x JOIN b.json y ON x.id = y.id GROUP BY x.u ORDER BY n DESC LIMIT 3"
 			}, Rows: func(n, k int) int { return 3 }},
 		{Name: "lookup_join_nested_scans", Kind: "complete", Lines: 60, Shared: "pool(nested datasource runs)",
 			SQL:  func(int) string { return "SELECT x.id, y.v FROM a.json x LOOKUP JOIN b.json y ON x.id = y.id" },
 			Rows: all},
-		{Name: "single_count", Kind: "complete", Lines: L, Shared: "pool",
-			SQL:  func(int) string { return "SELECT count(*) AS n FROM a.json" },
-			Rows: func(n, k int) int { return 1 }},
+		{Name: "single_scan_union_columns", Kind: "complete", Lines: L, Shared: "pool+shared-schema-type",
+			SQL:  func(int) string { return "SELECT id, u, w, n, o FROM a.json" },
+			Rows: all},
 		// tail=true follows the file for ever (one-line batches, a pipe-writer goroutine fed by the
 		// tail library): finite only because LIMIT stops it; Close has to stop that goroutine
 		{Name: "tail_limit_single", Kind: "limit", Lines: L, Shared: "pool+tail-goroutine",
